@@ -442,10 +442,10 @@ func checkC11(c *core.Ctx) {
 	for _, hs := range []struct {
 		sdl  string
 		docs []string
-	}{{detSDL, detDocs}, {handRuleSDL, handRuleDocs}} {
+	}{{detSDL, detDocs}, {handRuleSDL, handRuleDocs}, {sharedDupSDL, sharedDupDocs}} {
 		var calls []sharedCall
 		for i, q := range hs.docs {
-			if i%25 == 24 {
+			if i%25 == 24 || (i%3 == 1 && len(hs.docs) < 15) {
 				calls = append(calls, sharedCall{Op: "format"})
 			}
 			calls = append(calls, sharedCall{Op: "validate", Query: q})
@@ -805,4 +805,29 @@ func goValueFor(t *ast.Type, schema *ast.Schema, r *rand.Rand, depth int) interf
 		return "id"
 	}
 	return map[string]interface{}{"any": []interface{}{1, "x"}}
+}
+
+// a schema whose lists carry repeats and stand in no particular order: extensions that name an interface or a
+// union member the base already names, interfaces implemented by interfaces declared before the objects
+const sharedDupSDL = `
+interface Named { name: String }
+interface Titled { title: String }
+interface Node { id: ID }
+interface Entity implements Node { id: ID }
+interface Draft implements Node { id: ID }
+type User implements Entity & Node { id: ID }
+type Admin implements Draft & Node { id: ID }
+type Book implements Named { name: String title: String }
+extend type Book implements Named & Titled
+union Thing = Book | User
+extend union Thing = Book | Admin
+enum Shade { DARK LIGHT }
+extend enum Shade { MID }
+type Query { book: Book node: Node thing: Thing shade(s: Shade = MID): Shade }
+`
+
+var sharedDupDocs = []string{
+	`{ book { name title nam } }`, `{ node { idd } }`, `{ node { ... on Entity { id } ... on Book { name } } }`, `{ thing { ... on Book { name } ... on Admin { id } nope } }`,
+	`{ book { ... on Named { name } ... on Titled { title } } }`, `{ shade(s: MIDD) }`, `{ node { ... on Draft { id } ... on User { id } } thing { __typename } }`,
+	`{ node { name } }`, `{ thing { name } }`, `{ book { ... on Node { id } } }`,
 }
